@@ -683,6 +683,7 @@ func census() (muxLoops, streamLoops, serverSide, proxySide int) {
 type wdState struct {
 	mu       sync.Mutex
 	active   bool
+	cleanup  bool
 	idx      int
 	kind     string
 	desc     any
@@ -734,15 +735,22 @@ func startWatchdog() {
 				lockWaiters := strings.Count(dump, "sync.(*Mutex).Lock") + strings.Count(dump, "sync.(*RWMutex).Lock") +
 					strings.Count(dump, "sync.(*RWMutex).RLock") + strings.Count(dump, "[semacquire") + strings.Count(dump, "[sync.")
 				busy := strings.Count(dump, "[running") + strings.Count(dump, "[runnable") - 1
+				if os.Getenv("VERIF_WD_DEBUG") != "" {
+					fmt.Fprintf(os.Stderr, "watchdog: stuck=%d lockWaiters=%d busy=%d\n", stuck, lockWaiters, busy)
+				}
 				if (lockWaiters == 0 || busy > 0) && stuck < 1200 {
 					continue
 				}
 				wd.mu.Lock()
 				pending := wd.pendFn()
 				rec := Rec{Idx: wd.idx, Kind: wd.kind + "-wedged", Desc: wd.desc,
-					Obs:  map[string]any{"wedged_at_step": wd.step, "lock_waiters": lockWaiters, "pending": pending},
-					Tags: append(append([]string{}, wd.tags...), "wedged"),
-					Coq:  wd.wedgeCoq(wd.coqActs[:min(wd.step+1, len(wd.coqActs))], wd.coqObs, pending)}
+					Obs:  map[string]any{"wedged_at_step": wd.step, "lock_waiters": lockWaiters, "pending": pending, "in_cleanup": wd.cleanup},
+					Tags: append(append([]string{}, wd.tags...), "wedged")}
+				if wd.cleanup {
+					rec.Tags = append(rec.Tags, "wedged-in-cleanup")
+				} else {
+					rec.Coq = wd.wedgeCoq(wd.coqActs[:min(wd.step+1, len(wd.coqActs))], wd.coqObs, pending)
+				}
 				em := wd.em
 				wd.mu.Unlock()
 				em.Emit(rec)
@@ -898,9 +906,12 @@ func runClientScenario(t *testing.T, idx int, kind string, sc clientScenario, em
 			coqActs = append(coqActs, term)
 			coqObs = append(coqObs, oc)
 		}
+		// the cleanup below stays under the watchdog: a wedge there (cancel every context, fail the read)
+		// is a failing input too; it is reported without a Coq term (process event "wedged")
 		wd.mu.Lock()
-		wd.active = false
+		wd.cleanup = true
 		wd.mu.Unlock()
+		wdProgress.Add(1)
 		// Cleanup, not compared with the model: release every parked goroutine, cancel
 		// every caller context and fail the transport read. Afterwards no goroutine of
 		// the client may remain (a leak makes the bubble panic: "leaked-at-end").
@@ -917,6 +928,9 @@ func runClientScenario(t *testing.T, idx int, kind string, sc clientScenario, em
 		}
 		ep.FailRead(errInjected)
 		synctest.Wait()
+		wd.mu.Lock()
+		wd.active, wd.cleanup = false, false
+		wd.mu.Unlock()
 	})
 	wd.mu.Lock()
 	wd.active = false
